@@ -669,8 +669,13 @@ def r_vector_helpers(rule, root=None):
     y, ..) and the scalar / vector operator forms keep their operands in order"""
     comps = {"Vec2": ["x", "y"], "Vec3": ["x", "y", "z"], "Vec4": ["x", "y", "z", "w"]}
 
-    def lit_fields(fn):
+    def lit_fields(fn, cs=None):
         sts = [s_ for s_ in A.find(fn["body"], "Struct")]
+        if not sts and cs:
+            # `Self::new(f(self.x), f(self.y), ..)`: positional, in component order
+            calls = [c for c in A.find(fn["body"], "Call") if (A.path_segs(c["func"]) or [None])[-1] == "new" and len(c["args"]) == len(cs)]
+            if len(calls) == 1:
+                return {c_: str(A.ftxt(a_)) for c_, a_ in zip(cs, calls[0]["args"])}
         if len(sts) != 1:
             return None
         return {f["name"]: (str(A.ftxt(f["e"])) if f.get("e") is not None else f["name"]) for f in sts[0]["fields"]}
@@ -683,7 +688,7 @@ def r_vector_helpers(rule, root=None):
                 rule.lost(str(e))
                 continue
             args = [A.binding_name(p["pat"]) for p in fn["sig"]["inputs"] if "pat" in p]
-            got = lit_fields(fn)
+            got = lit_fields(fn, cs)
             exp = {c: want(c, args) for c in cs}
             if got == exp:
                 rule.ok("%s::%s acts on every component with itself" % (ty, name), file=TYPES_RS, line=fn["ln"])
